@@ -2,3 +2,6 @@
 #![allow(clippy::all)]
 pub use mmv_base::{capacity_of, caps_for_kind, case, ctx, fmtutil, kinds, plan, tl};
 pub mod dispatch;
+pub use mmv_maphist as maphist;
+pub use mmv_pairs as pairs;
+pub use mmv_sethist as sethist;
